@@ -538,6 +538,8 @@ func checkC18(w *World, r *Report) {
 		}
 	}
 
+	r.Rule("R18.9", "however the DNS server is started, a +tls endpoint gets a TLS listener (ListenAndServe builds it; ActivateAndServe needs one from crypto/tls)", 1)
+	c18DnsServerStartKeepsTls(w, r)
 	r.Rule("R18.8", "no parsing function returns a nil object together with a possibly-nil error (a malformed definition must be a configuration error, not a nil entry)", 3)
 	r.Rule("R18.7", "an upstream address counts as an encrypted transport only over a TLS-built carrier or under a test for a TLS scheme (+tls, https, wss): never for a scheme that merely looks like one", 5)
 	if sites, _ := findConnectSites(w); len(sites) > 0 {
